@@ -166,6 +166,72 @@ pub fn run_case_opts<R: Reg>(ops: &[Op], prop: &str, excl: &Exclusions, slot: us
     }
 }
 
+/// Deterministic sample of generated histories for the interpreter tier (Miri): the histories come
+/// from the same strategy as the engine's, are run natively first, and only passing, non-trivial
+/// ones of at most `max_ops` operations are kept. A pure function of the arguments.
+pub fn sample_cases<R: Reg>(prop: &str, thorough: bool, seed: u64, n: usize, max_ops: usize) -> Vec<Vec<Op>> {
+    use proptest::strategy::{Strategy, ValueTree};
+    let profile = Profile::for_property(prop, thorough);
+    let mut h = std::collections::hash_map::DefaultHasher::new();
+    (seed, "sample", R::NAME, prop).hash(&mut h);
+    let s = h.finish();
+    let mut seed_bytes = [0u8; 32];
+    for (i, b) in seed_bytes.iter_mut().enumerate() {
+        *b = (s.rotate_left(i as u32 * 7) as u8) ^ (i as u8).wrapping_mul(37);
+    }
+    let mut runner = TestRunner::new_with_rng(
+        PtConfig { failure_persistence: None, rng_seed: RngSeed::Fixed(s), ..PtConfig::default() },
+        proptest::test_runner::TestRng::from_seed(proptest::test_runner::RngAlgorithm::ChaCha, &seed_bytes),
+    );
+    let strat = history_strategy(&profile);
+    let excl = Exclusions::default();
+    let mut out = Vec::new();
+    let mut attempts = 0;
+    while out.len() < n && attempts < n * 200 {
+        attempts += 1;
+        let Ok(tree) = strat.new_tree(&mut runner) else { continue };
+        let ops = tree.current();
+        if ops.len() > max_ops {
+            continue;
+        }
+        let o = run_case_opts::<R>(&ops, prop, &excl, 0, true);
+        if o.fail.is_none() && o.foreign.is_none() && nontrivial(prop, &o.stats) {
+            out.push(ops);
+        }
+    }
+    out
+}
+
+/// Run a history with every harness oracle switched off (the interpreter the binary runs under is
+/// the oracle); the worlds are dropped at the end. Err = the library panicked.
+pub fn run_light<R: Reg>(ops: &[Op]) -> Result<usize, String> {
+    ledger::reset(1_000_000);
+    set_quiet(true);
+    let mut interp = Interp::<R>::new(Exclusions::default());
+    interp.prop = "C05".to_string();
+    interp.checks = false;
+    for (i, op) in ops.iter().enumerate() {
+        match catch_unwind(AssertUnwindSafe(|| interp.apply(op))) {
+            Ok(Ok(())) => {}
+            Ok(Err(f)) => {
+                std::mem::forget(interp);
+                return Err(format!("step {}: [{}] {}", i + 1, f.oracle, f.msg));
+            }
+            Err(p) => {
+                let msg = p.downcast_ref::<String>().cloned().or_else(|| p.downcast_ref::<&str>().map(|s| s.to_string())).unwrap_or_else(|| "panic".into());
+                std::mem::forget(interp);
+                return Err(format!("step {}: the library panicked during {}: {msg}", i + 1, op.name()));
+            }
+        }
+    }
+    let n = interp.stats.ops_run;
+    let slots = std::mem::take(&mut interp.slots);
+    drop(slots);
+    drop(interp);
+    set_quiet(false);
+    Ok(n)
+}
+
 /// The per-property rule deciding whether a case is non-trivial.
 pub fn nontrivial(prop: &str, s: &CaseStats) -> bool {
     match prop {
